@@ -33,6 +33,21 @@ def build_target(bd):
 		defines = ["TARGET_VARIANT"])
 
 
+SANCOV = ["-fsanitize-coverage=trace-pc-guard,trace-loads,trace-stores"]
+
+
+def build_irq(bd):
+	""" Target variant of sercomm.c + the firmware's static msgb pool + libosmocore msgb.c, each calling back into
+	    the driver at every basic block and memory access (where a simulated UART interrupt may preempt them). """
+	st = cbuild.firmware_staging(bd)
+	inc = [st, os.path.join(cbuild.LIBOSMO, "include"), cbuild.libosmocore_config(bd)]
+	objs = [cbuild.compile_obj(bd, src, includes = inc, defines = ["VERIF_IRQ_SIM"], cflags = SANCOV, twin = False)
+		for src in (os.path.join(cbuild.FW, "comm/sercomm.c"), os.path.join(cbuild.FW, "comm/msgb.c"),
+			os.path.join(cbuild.LIBOSMO, "src/msgb.c"))]
+	return cbuild.compile_link(bd, "sercomm_irq_drv", [os.path.join(cbuild.CDIR, "drivers/sercomm_irq_drv.c")] + objs,
+		includes = inc, defines = ["VERIF_IRQ_SIM"], twin = False)
+
+
 def build(tag):
 	bd = cbuild.BuildDir(tag)
 	binary = cbuild.compile_link(bd, "sercomm_drv",
@@ -348,6 +363,210 @@ def judge(ctx, binary, cases, registered, sub):
 			break
 
 
+# ---- interrupt context -------------------------------------------------------------------------
+
+IRQ_DLCIS = [1, 2, 3, 5, 9, 10, 31, 64, 127]
+PREEMPTED_AT = set()
+
+
+def irq_payload(r):
+	k = r.random()
+	if k < 0.1:
+		return b""
+	if k < 0.4:
+		return bytes(r.choice((FLAG, ESC, 0x00, 0x5e, 0x5d, 0x20, r.randrange(256))) for _ in range(r.randint(1, 12)))
+	return r.randbytes(r.randint(1, 40) if k < 0.9 else r.randint(100, 200))
+
+
+def frame(dlci, payload):
+	return bytes((FLAG,)) + escape(bytes((dlci, 0x03)) + payload) + bytes((FLAG,))
+
+
+def unframe(wire):
+	""" Reference de-framer for the octets put on the wire. -> (frames [(dlci, payload)], error or None) """
+	out = []
+	i = 0
+	n = len(wire)
+	while i < n:
+		if wire[i] != FLAG:
+			return out, "octet 0x%02x on the wire outside a frame (offset %d)" % (wire[i], i)
+		j = i + 1
+		data = bytearray()
+		while True:
+			if j >= n:
+				return out, "the wire ends inside a frame although everything was drained"
+			b = wire[j]
+			if b == FLAG:
+				break
+			if b == 0x00:
+				return out, "unescaped 0x00 inside a frame (offset %d)" % j
+			if b == ESC:
+				if j + 1 >= n or (wire[j + 1] ^ 0x20) not in (FLAG, ESC, 0x00):
+					return out, "escape octet not followed by an escaped 7e/7d/00 (offset %d)" % j
+				data.append(wire[j + 1] ^ 0x20)
+				j += 2
+				continue
+			data.append(b)
+			j += 1
+		if len(data) < 2 or data[1] != 0x03:
+			return out, "frame without address/control octets (offset %d): %s" % (i, bytes(data[:8]).hex())
+		out.append((data[0], bytes(data[2:])))
+		i = j + 1
+	return out, None
+
+
+def irq_scenario(r, small = False):
+	""" -> (main-context ops, inbound messages).  At most 20 messages are in flight before a drain
+	    (the firmware's pool has 32 buffers). """
+	ops = []
+	inbound = []
+	few = r.sample(IRQ_DLCIS, r.randint(1, 4))
+	nmsg = r.randint(1, 3) if small else r.randint(2, 14)
+	nin = r.randint(0, 1) if small else r.randint(0, 5)
+	for _ in range(nin):
+		d = ECHO if r.random() < 0.35 else r.choice(few)
+		inbound.append((d, irq_payload(r) if d != ECHO else r.randbytes(r.randint(0, 30))))
+	if inbound:
+		ops.append(("F", b"".join(frame(d, p) for d, p in inbound)))
+	for _ in range(nmsg):
+		ops.append(("S", r.choice(few), irq_payload(r)))
+		if not small and r.random() < 0.25:
+			ops.append(("X", r.choice((1, 2, 5, 64))) if r.random() < 0.6 else ("Y", r.choice((1, 3, 64))))
+	ops.append(("Z",))
+	return ops, inbound
+
+
+def irq_render(idx, plan, ops):
+	out = ["N %d" % idx, "I " + " ".join("%d:%s%d" % p for p in plan)]
+	for op in ops:
+		if op[0] == "S":
+			out.append("S %d %s" % (op[1], hexs(op[2])))
+		elif op[0] == "F":
+			out.append("F %s" % hexs(op[1]))
+		elif op[0] in "XY":
+			out.append("%s %d" % op)
+		else:
+			out.append("Z")
+	return ("\n".join(out) + "\n").encode()
+
+
+def irq_judge(ctx, plan, ops, inbound, lines, script):
+	""" Exactly once, intact, FIFO per DLCI on the wire; inbound messages delivered in order; echoes sent back. """
+	w = {"script": script.decode()[:6000], "output_tail": lines[-8:]}
+	wire = None
+	dl = []
+	stats = None
+	for l in lines:
+		if l.startswith("D "):
+			p = l.split(" ")
+			dl.append((int(p[1]), unhex(p[2])))
+		elif l.startswith("W "):
+			wire = unhex(l[2:])
+		elif l.startswith("e "):
+			stats = [int(x) for x in l.split()[1:]]
+		elif l.startswith("i "):
+			p = l.split()
+			ctx.count("interrupts_inside_main_context_code")
+			ctx.count("interrupt:%s" % p[1])
+			PREEMPTED_AT.add(p[3])
+		elif l.startswith("PANIC"):
+			ctx.violation("interrupt", w, what = "firmware gives up under interrupt load with <= 20 messages in flight: %s" % l[:80])
+			return
+	if wire is None or stats is None:
+		ctx.violation("interrupt", w, what = "the driver never reached the drained state")
+		return
+	ctx.count("callbacks_unmasked", stats[0])
+	ctx.count("callbacks_masked", stats[1])
+	want_rx = [(d, p) for d, p in inbound if d != ECHO]
+	if dl != want_rx:
+		ctx.violation("interrupt", dict(w, expected = [[d, p.hex()] for d, p in want_rx][:6], got = [[d, p.hex()] for d, p in dl][:6]),
+			what = "inbound messages are not delivered intact, once and in order while the main context is sending")
+		return
+	frames, err = unframe(wire)
+	if err:
+		ctx.violation("interrupt", dict(w, wire = wire.hex()[:600]), what = "octets on the wire are not well-formed frames: " + err)
+		return
+	sent = {}
+	for op in ops:
+		if op[0] == "S":
+			sent.setdefault(op[1], []).append(op[2])
+	for d, p in inbound:
+		if d == ECHO:
+			sent.setdefault(ECHO, []).append(p)
+	got = {}
+	for d, p in frames:
+		got.setdefault(d, []).append(p)
+	if got != sent:
+		diff = sorted(d for d in set(got) | set(sent) if got.get(d) != sent.get(d))
+		d = diff[0]
+		ctx.violation("interrupt", dict(w, dlci = d, queued = [p.hex() for p in sent.get(d, [])][:8], on_wire = [p.hex() for p in got.get(d, [])][:8]),
+			what = "messages queued for DLCI %d do not appear on the wire exactly once, intact and in FIFO order "
+				"when the UART interrupt preempts the main context" % d)
+		return
+	ctx.count("interrupt_cases_ok")
+	ctx.count("messages_through_interrupt_cases", sum(len(v) for v in sent.values()) + len(want_rx))
+
+
+def interrupts(ctx, r, bd):
+	binary = build_irq(bd)
+	reg = [str(d) for d in IRQ_DLCIS]
+
+	def batch(cases, sub):
+		scripts = [irq_render(i, plan, ops) for i, (plan, ops, inbound) in enumerate(cases)]
+		outputs, crashes = cbuild.run_cases(binary, scripts, args = reg, timeout = 300)
+		bad = {c[0] for c in crashes}
+		for c in crashes:
+			if c[1] == 3:
+				continue	# PANIC line: judged below
+			ctx.violation("interrupt", {"script": scripts[c[0]].decode()[:6000], "stderr": c[2][-1500:]},
+				what = "sercomm dies or hangs when the UART interrupt preempts the main context (rc=%s): %s" % (c[1], c[3] or "no sanitizer report"))
+		for i, (plan, ops, inbound) in enumerate(cases):
+			if outputs[i] is None or (i in bad and not any(l.startswith("PANIC") for l in outputs[i])):
+				continue
+			ctx.seen(common.h64(scripts[i]))
+			ctx.count("interrupt_cases")
+			ctx.count("interrupt_cases:" + sub)
+			irq_judge(ctx, plan, ops, inbound, outputs[i], scripts[i])
+
+	# 1. small scenarios, every single preemption point (Tx and Rx interrupt) enumerated
+	for k in range(ctx.scale(6, 12)):
+		ops, inbound = irq_scenario(r, small = True)
+		probe = irq_render(0, [], ops)
+		rc, out, err = cbuild.run(binary, probe, args = reg)
+		ev = [int(l.split()[1]) for l in out.decode().splitlines() if l.startswith("e ")]
+		if rc != 0 or not ev:
+			ctx.violation("interrupt", {"script": probe.decode()[:3000], "stderr": err.decode(errors = "replace")[-1500:]},
+				what = "sercomm fails without any interrupt inside main-context code (rc=%s)" % rc)
+			return
+		ctx.count("preemption_points_enumerated", ev[0])
+		cases = []
+		for point in range(1, ev[0] + 1):
+			if not ctx.mine(point):
+				continue
+			cases.append(([(point, "T", r.choice((1, 4, 64)))], ops, inbound))
+			if inbound:
+				cases.append(([(point, "R", r.choice((1, 64, 400)))], ops, inbound))
+			cases.append(([(point, "T", 64), (r.randint(1, 12), "T", 64), (r.randint(1, 12), "R", 64)], ops, inbound))
+		batch(cases, "every-point")
+		if ctx.too_many():
+			return
+	# 2. random scenarios with dense random interrupt plans
+	total = ctx.scale(600, 40000)
+	done = 0
+	while done < total and not ctx.too_many() and ctx.time_left() > 0:
+		cases = []
+		for _ in range(min(500, total - done)):
+			ops, inbound = irq_scenario(r)
+			plan = []
+			for _ in range(r.randint(1, 60)):
+				plan.append((r.choice((1, 1, 2, 3, 5, 8, 13, 30, 80)) if r.random() < .8 else r.randint(1, 400),
+					r.choice("TTR"), r.choice((1, 2, 7, 64, 300))))
+			cases.append((plan, ops, inbound))
+		batch(cases, "random")
+		done += len(cases)
+	ctx.count("distinct_code_locations_preempted_per_shard", len(PREEMPTED_AT))
+
+
 def echo_cases(r, n):
 	""" A frame for the echo DLCI arriving from outside is queued for
 	    transmission again, intact (sercomm_sendmsg is its handler). """
@@ -413,8 +632,14 @@ def run(ctx):
 			if len(got) != 1 or unhex(got[0][2:]) != want:
 				ctx.violation("echo", {"payload": payload.hex(), "output": outputs[i][:4]},
 					what = "echo DLCI does not send back the received message intact")
+		RXBUF = 256
+		interrupts(ctx, ctx.rng("c06-irq"), bd)
+		RXBUF = 2048
 	finally:
 		bd.remove()
+	ctx.require("interrupt_cases_ok", 300)
+	ctx.require("interrupts_inside_main_context_code", 1000)
+	ctx.require("callbacks_masked", 1000)
 	ctx.require("cases", 100)
 	ctx.require("frames", 1000)
 	ctx.require("deliveries_ok", 1000)
